@@ -358,15 +358,21 @@ def _w_mhn():
 
 
 def _w_gmrf_nan():
+    """whether _logdet is NaN or a huge finite number depends on the sign of a zero eigenvalue computed by ARPACK
+    from a random start vector: the witness is a small fixed family of objects, it fails if any of them has logd = NaN"""
     from cuqi.distribution import GMRF
     import io, contextlib
-    with contextlib.redirect_stdout(io.StringIO()):
-        G = GMRF(np.ones(5), 1.5, bc_type="neumann", order=2, geometry=5)
-    x = np.array([0.5, 1.5, -0.25, 1.0, 2.0])
-    o = observe(lambda: G.gradient(x))
-    v = logd_of(G)(x)
-    fails = o[0] == "vec" and not math.isfinite(v)
-    return ("logd = %r but gradient() returns a finite vector" % v) if fails else None, "GMRF(ones(5), 1.5, neumann, order=2): logd(x) = %r, gradient -> %s" % (v, o[0])
+    seen = []
+    for n in (5, 6, 7, 5, 6, 7):
+        with contextlib.redirect_stdout(io.StringIO()):
+            G = GMRF(np.ones(n), 1.5, bc_type="neumann", order=2, geometry=n)
+        x = np.linspace(-1.0, 2.0, n)
+        o = observe(lambda: G.gradient(x))
+        v = logd_of(G)(x)
+        seen.append(v)
+        if o[0] == "vec" and not math.isfinite(v):
+            return ("logd = %r but gradient() returns a finite vector" % v), "GMRF(ones(%d), 1.5, neumann, order=2): logd(x) = %r, gradient -> %s" % (n, v, o[0])
+    return None, "GMRF(ones(n), 1.5, neumann, order=2), n = 5,6,7: logd finite on this run (%s)" % (["%.3g" % v for v in seen],)
 
 
 WITNESS = {SIGNAN: _w_gmrf_nan, SIG7: _w_cmrf, SIG8G: lambda: _w_none("gmrf"), SIG8A: lambda: _w_none("gauss"), SIG8L: lambda: _w_none("lognormal"),
